@@ -26,7 +26,7 @@ def pinnedOut : Scalar → List (Kind × Action)
 /-- D08: Int arguments are narrowed to 32 bits without a range check.
     D46: Float arguments: float64 → float32 overflow to ±Inf, non-finite values passed through. -/
 def pinnedIn : Scalar → List (Kind × Action)
-  | .int => [(.i64, .conv .i32), (.int, .conv .i32), (.u32, .conv .i32), (.u64, .conv .i32), (.uint, .conv .i32)]
+  | .int => []          -- D08 repaired (d98176a): the wide integer arms are range-checked
   | .float => [(.f32, .asIs), (.f64, .conv .f32)]
   | .float64 => [(.f32, .conv .f64), (.f64, .asIs), (.str, .parseFloatKeep .f64)]
   | _ => []
